@@ -45,7 +45,13 @@ def check_semaphore(ck, tu):
         # guarded take: on every path to `value_ -= delta` the last thing known about value_ is value_ >= delta + slack
         delta = fn.params[0]["did"] if fn.params else None
         slack = fn.params[1]["did"] if len(fn.params) > 1 else None
-        takes = [(x, f, eff) for x, f, eff in field_writes(fn) if f == "value_" and (match.binop(x, ("-=",)) or x.get("op") == "--")]
+        def is_take(x):
+            if match.binop(x, ("-=",)) or x.get("op") == "--":
+                return True
+            b_ = match.binop(x, ("=",))
+            d_ = match.binop(b_[2], ("-",)) if b_ else None
+            return bool(d_ and match.this_field(d_[1]) == "value_")            # value_ = value_ - X
+        takes = [(x, f, eff) for x, f, eff in field_writes(fn) if f == "value_" and is_take(x)]
         if not takes:
             continue
         locals_ = {v["did"]: v for v in fn.nodes() if v["k"] == "VarDecl"}
@@ -111,6 +117,9 @@ def check_semaphore(ck, tu):
         mf = mustfact.MustFact(fn, g, implies, effect)
         for x, f, eff in takes:
             b = match.binop(x, ("-=",))
+            if not b and match.binop(x, ("=",)):
+                d_ = match.binop(match.binop(x, ("=",))[2], ("-",))
+                b = ("-=", d_[1], d_[2])
             amount = params_sum(b[2]) if b else None
             if b and amount is None:
                 raise dtable.Undecidable("%s: amount taken from the semaphore not understood: %s" % (fn.loc, dtable.describe(b[2])))
@@ -215,9 +224,59 @@ def check_spin(ck, tu):
         par = fn.parent(arrive[0])
         while par is not None and par["k"] in ("ImplicitCastExpr",):
             par = fn.parent(par)
-        cmpn = match.binop(par, ("==",)) if par is not None else None
+        cmpn = match.binop(par, ("==", "!=")) if par is not None else None
         if not (cmpn and (strip_casts(cmpn[1]) is arrive[0] or strip_casts(cmpn[2]) is arrive[0])):
-            bad.append(("rmw-result", "the last arriver is not decided by the result of the arrival fetch_add itself", arrive[0]))
+            # the result may be named first: const size_t arrived = waiting_.fetch_add(1, ...); if (arrived == thread_count_)
+            vd = par if par is not None and par["k"] == "VarDecl" else None
+            uses = [y for y in fn.nodes() if vd is not None and y["k"] == "DeclRefExpr" and y["ref"]["id"] == vd["did"]]
+            cmpn = None
+            if len(uses) == 1:
+                up = fn.parent(uses[0])
+                while up is not None and up["k"] == "ImplicitCastExpr":
+                    up = fn.parent(up)
+                cmpn = match.binop(up, ("==", "!=")) if up is not None else None
+                par = up
+            if cmpn is None:
+                raise dtable.Undecidable("%s: how the last arriver is decided from the arrival fetch_add is not understood" % fn.loc)
+        other_side = cmpn[1] if match.this_field(cmpn[1]) == "thread_count_" else cmpn[2]
+        if match.this_field(other_side) != "thread_count_":
+            bad.append(("rmw-result", "the last arriver is not decided by comparing the result of the arrival fetch_add with thread_count_", arrive[0]))
+        else:
+            # the completion work belongs to the arriver whose result equals thread_count_ only
+            cb = None
+            for bid, blk in g.blocks.items():
+                els = g.elements(bid)
+                if len(blk.get("succ", [])) == 2 and els and isinstance(els[-1], int) and fn.byid(els[-1]) is not None and \
+                        any(y is par or y is strip_casts(par) for y in ir.walk(fn.byid(els[-1]))):
+                    cb = blk
+            if cb is None:
+                raise dtable.Undecidable("%s: branch on the arrival result not found" % fn.loc)
+            neg = cmpn[0] == "!="
+            cn = fn.byid(g.elements(cb["id"])[-1])
+            while cn is not None and strip_casts(cn) is not strip_casts(par) and cn["k"] in ("ParenExpr", "UnaryOperator", "ImplicitCastExpr"):
+                if cn["k"] == "UnaryOperator" and cn.get("op") == "!":
+                    neg = not neg
+                cn = kids(cn)[0]
+            others = cb["succ"][0] if neg else cb["succ"][1]
+            seen_, work_ = set(), [others]
+            relb = G_rel = None
+            tgt_blocks = set()
+            if hfn is None:
+                tgt_blocks = {g.pos(release[0])[0], g.pos(reset[0])[0]}
+            else:
+                tgt_blocks = {g.pos_deep(hcall)[0]}
+            leak = False
+            while work_:
+                b_ = work_.pop()
+                if b_ in seen_ or b_ is None:
+                    continue
+                seen_.add(b_)
+                if b_ in tgt_blocks:
+                    leak = True
+                    break
+                work_.extend(g.succ[b_])
+            if leak:
+                bad.append(("rmw-result", "an arriver whose fetch_add result differs from thread_count_ can reach the reset / release of the generation", arrive[0]))
         G2 = hg if hfn is not None else g
         if not (G2.dominates(G2.pos(reset[0]), G2.pos(release[0])) and G2.dominates(G2.pos(lam[0]), G2.pos(release[0]))):
             bad.append(("release-order", "the generation counter is advanced (releasing the spinners) before the arrival counter was reset and the action has run", release[0]))
@@ -265,16 +324,24 @@ def check_mutex_barrier(ck, tu):
             if p and match.this_field(p[0]) == "counts_":
                 return p[1]
             return None
-        arrive = [x for x in fn.nodes() if match.unop(x, ("++",)) and counts_index(match.unop(x, ("++",))[1]) is not None]
+        def arrive_target(x):
+            u = match.unop(x, ("++",))
+            if u:
+                return u[1]
+            b_ = match.binop(x, ("+=",)) if x["k"] in ("CompoundAssignOperator", "CXXOperatorCallExpr") else None
+            if b_ and const_int(b_[2]) == 1:
+                return b_[1]
+            return None
+        arrive = [x for x in fn.nodes() if arrive_target(x) is not None and counts_index(arrive_target(x)) is not None]
         resets = [x for x in fn.nodes() if match.binop(x, ("=",)) and counts_index(match.binop(x, ("=",))[1]) is not None]
         flips = [x for x in fn.nodes() if match.binop(x, ("=",)) and match.this_field(match.binop(x, ("=",))[1]) == "step_"]
         lam = [x for x in fn.nodes() if "callee" in x and x.get("op") == "()" and kids(x) and ref_of(kids(x)[0]) == fn.params[0]["did"]]
         notes = sync.notify_calls(fn)
         waits = sync.wait_calls(fn)
-        if not (len(arrive) == 1 and len(resets) == 1 and len(flips) == 1 and len(lam) == 1 and len(notes) == 1 and len(waits) == 1):
+        if not (len(arrive) == 1 and len(resets) == 1 and len(flips) >= 1 and len(lam) == 1 and len(notes) == 1 and len(waits) == 1):
             raise dtable.Undecidable("%s: barrier skeleton not recognised" % fn.loc)
         P = g.pos_deep
-        if ref_of(counts_index(match.unop(arrive[0], ("++",))[1])) != cur:
+        if ref_of(counts_index(arrive_target(arrive[0]))) != cur:
             bad.append(("arrive-index", "arrival is not counted in the generation that was sampled", arrive[0]))
         if not g.dominates(P(snap[0]), P(arrive[0])):
             bad.append(("snapshot", "the generation is sampled after arriving", snap[0]))
@@ -322,9 +389,9 @@ def check_mutex_barrier(ck, tu):
                 bad.append(("wait-pred", "waiters do not wait for counts_[their generation] to reach thread_count_", c))
         # last arriver: flip, reset the OTHER counter, action, notify_all - all in one hold, in dominance order
         ri = counts_index(match.binop(resets[0], ("=",))[1])
-        if ref_of(ri) == cur or (match.this_field(ri) == "step_" and not g.dominates(P(flips[0]), P(resets[0]))):
+        if ref_of(ri) == cur or (match.this_field(ri) == "step_" and g.path_from_entry_avoiding(P(resets[0]), [P(f_) for f_ in flips]) is not None):
             bad.append(("reset-index", "the last arriver resets the counter of the generation its waiters are still testing: they block again", resets[0]))
-        for x, what in ((flips[0], "generation flip"), (resets[0], "counter reset"), (lam[0], "action"), (notes[0]["node"], "notify")):
+        for x, what in [(f_, "generation flip") for f_ in flips] + [(resets[0], "counter reset"), (lam[0], "action"), (notes[0]["node"], "notify")]:
             if fl.held_at(x) is not True:
                 bad.append(("unlocked:" + what.replace(" ", "-"), "the %s happens without mutex_ held" % what, x))
         if notes[0]["kind"] != "notify_all":
